@@ -111,7 +111,7 @@ CHECKS = {
 }
 
 # properties whose check is built, quiet on the unchanged tree and registered
-CLAIMED = ["C%02d" % i for i in range(1, 21) if i != 7]
+CLAIMED = ["C%02d" % i for i in range(1, 21)]
 
 NOT_APPLICABLE = {}
 
